@@ -73,9 +73,10 @@ class Call:
 
 
 class WT:
-    def __init__(self, prog, depth=3, inline_public=False):
+    def __init__(self, prog, depth=3, inline_public=False, keep=()):
         self.prog = prog
         self.maxdepth = depth
+        self.keep = set(keep)       # functions recorded as calls instead of being evaluated in place
         self.calls = []
         self.stores = []      # (target term, value term, guards, node)
         self.raises = []      # (guards, node)
@@ -171,6 +172,12 @@ class WT:
         g = lambda x: self.ev(f, x, env, depth) if x is not None else None   # noqa
         return ('slice', g(e.lower), g(e.upper), g(e.step))
 
+    def e_Dict(self, f, e, env, depth):
+        if any(k is None for k in e.keys):
+            return ('other', norm(e))
+        items = [(self.ev(f, k, env, depth), self.ev(f, v, env, depth)) for k, v in zip(e.keys, e.values)]
+        return ('dict', tuple(sorted(items, key=key)))
+
     def e_Lambda(self, f, e, env, depth):
         return ('lambda', norm(e))
 
@@ -218,6 +225,25 @@ class WT:
         if isinstance(fn, ast.Name) and fn.id in ('tuple', 'list') and fn.id not in env and len(args) == 1 and args[0][0] == 'tuple':
             return args[0]
         target = None
+        if isinstance(fn, ast.Name) and isinstance(env.get(fn.id), tuple) and env[fn.id][0] == 'localfunc' and depth < self.maxdepth:
+            # a nested function: evaluated in the environment it closes over
+            lf = env[fn.id][2]
+            if lf is not None and lf in self.keep:
+                bound = self.bind(lf, args, kwargs) or {}
+                self.serial += 1
+                res = ('call', lf.qualname, tuple(args), tuple(sorted(kwargs.items())), self.serial)
+                self.calls.append(Call(lf, bound, args, kwargs, e, list(self.guards), f, res))
+                return res
+            if lf is not None and not (lf.vararg or lf.kwarg):
+                bound = self.bind(lf, args, kwargs)
+                if bound is not None:
+                    inner = dict(env)
+                    inner.update(self.with_defaults(lf, bound, depth))
+                    saved = self.guards
+                    e2, ret = self.block(lf, lf.node.body, inner, depth + 1)
+                    self.guards = saved
+                    if ret is not None:
+                        return ret
         if f is not None and not (isinstance(fn, ast.Name) and fn.id in env):
             try:
                 target = self.prog.resolve_callable(f, f.module, fn)
@@ -229,7 +255,7 @@ class WT:
             target = target.target
         if isinstance(target, Func) and not target.is_lambda:
             bound = self.bind(target, args, kwargs)
-            if target.jit is None and depth < self.maxdepth and self.inlinable(target) and bound is not None:
+            if target.jit is None and depth < self.maxdepth and self.inlinable(target) and bound is not None and target not in self.keep:
                 saved = self.guards
                 ret = self.run(target, self.with_defaults(target, bound, depth), depth + 1)
                 self.guards = saved
@@ -304,7 +330,7 @@ class WT:
                     env.update(e1)
                 else:
                     for k_ in set(e1) | set(e2):
-                        a, b_ = e1.get(k_, ('undef',)), e2.get(k_, ('undef',))
+                        a, b_ = e1.get(k_, _attr_default(k_, e1)), e2.get(k_, _attr_default(k_, e2))
                         env[k_] = a if a == b_ else ('phi', c, a, b_)
                 if r1 is not None or r2 is not None:
                     if r1 is not None and r2 is not None:
@@ -343,7 +369,7 @@ class WT:
             elif isinstance(s, (ast.FunctionDef, ast.ClassDef, ast.Import, ast.ImportFrom, ast.Pass, ast.Assert, ast.Delete,
                                 ast.Global, ast.Nonlocal, ast.Continue, ast.Break)):
                 if isinstance(s, ast.FunctionDef):
-                    env[s.name] = ('localfunc', s.name)
+                    env[s.name] = ('localfunc', s.name, f.children.get(s.name) if hasattr(f, 'children') else None)
                 continue
         return env, ret
 
@@ -363,6 +389,15 @@ class WT:
             # `x.values = x.values.astype(..)`: later reads of x.values see the new value
             if isinstance(t, ast.Attribute) and isinstance(t.value, ast.Name):
                 env['%s.%s' % (t.value.id, t.attr)] = v
+
+
+def _attr_default(k_, env):
+    """value of a re-assignable attribute (`raster.data`) on a branch that did not assign it"""
+    if '.' in k_:
+        nm, attr = k_.split('.', 1)
+        if nm in env and '.' not in attr:
+            return ('data', env[nm]) if attr in DATA_ATTRS else ('attr', env[nm], attr)
+    return ('undef',)
 
 
 def terminates(stmts):
@@ -475,3 +510,19 @@ def leaves(t):
             for nm in ('param', 'coord'):
                 pass
     return out
+
+
+def unwrap_dask(t):
+    """the array a dask wrapper holds: da.from_array(X, ...) -> X, X.rechunk(..) -> X, the same under both branches of a phi"""
+    while True:
+        if t[0] == 'call' and t[1] in ('dask.array.from_array', 'dask.array.asarray') and t[2]:
+            t = t[2][0]
+        elif t[0] == 'call' and isinstance(t[1], tuple) and t[1][0] == 'method' and t[1][2] in ('rechunk', 'persist'):
+            t = t[1][1]
+        elif t[0] == 'phi':
+            a, b = unwrap_dask(t[2]), unwrap_dask(t[3])
+            if key(a) != key(b):
+                return t
+            t = a
+        else:
+            return t
